@@ -13,7 +13,7 @@ import (
 // unchanged hash = an uncovered field — the same set the facts generator f_hashfields.go derives from the AST), and
 // every such field gets the whole family of alterations of its type: byte strings are extended (one byte, many
 // bytes, doubled, padded to 65/96/128), truncated (by one, to half, to 32, to nothing), prefixed, rotated, bit-flipped,
-// zeroed; integers are moved to +1 / +k / 0 / max; hashes are randomised / zeroed / bit-flipped. The property's
+// zeroed; integers are moved to honest+1 / honest-1 / +k / -k / half / 0 / 1 / max / the honest value of another block; hashes are randomised / zeroed / bit-flipped. The property's
 // sentence makes the set of byte strings a node accepts for one hash a singleton: whatever variant is accepted must
 // be stored with the bytes of the original.
 // ---------------------------------------------------------------------------------------------------
@@ -127,7 +127,26 @@ var byteMuts = []byteMut{
 	{"zeros", func(c *Ctx, old []byte) ([]byte, bool) { return make([]byte, len(old)), len(old) > 0 }},
 }
 
-var uintMutNames = []string{"plus-1", "plus-k", "zero", "max"}
+// numbers: the honest value moved by one in BOTH directions (a value a check "at least what is needed" lets through on
+// one side only), by k in both directions, halved, 0 (the "not set" value of a field a node fills in itself), 1, max,
+// and the honest value the same field has in ANOTHER block of the history
+var uintMutNames = []string{"plus-1", "minus-1", "plus-k", "minus-k", "half", "zero", "one", "max", "other-block"}
+
+// uintDonors: per field name, the values that field had in the honest blocks seen so far (filled by the stream)
+var uintDonors = map[string][]uint64{}
+
+func noteUintDonors(obj interface{}, fields []string) {
+	v := reflect.ValueOf(obj).Elem()
+	for _, f := range fields {
+		fv := v.FieldByName(f)
+		if fv.IsValid() && fv.Kind() == reflect.Uint64 {
+			l := uintDonors[f]
+			if len(l) < 64 {
+				uintDonors[f] = append(l, fv.Uint())
+			}
+		}
+	}
+}
 var hashMutNames = []string{"random", "zero", "bitflip"}
 
 // fieldMutNames: the alterations available for a field of this type
@@ -160,12 +179,37 @@ func applyFieldMut(c *Ctx, obj interface{}, field, mut string) bool {
 		switch mut {
 		case "plus-1":
 			nv = old + 1
+		case "minus-1":
+			if old == 0 {
+				return false
+			}
+			nv = old - 1
 		case "plus-k":
 			nv = old + uint64(2+c.R.Intn(100000))
+		case "minus-k":
+			if old < 3 {
+				return false
+			}
+			nv = old - uint64(2+c.R.Int63n(int64(old-2))) // 1 <= nv <= old-2
+		case "half":
+			nv = old / 2
 		case "zero":
 			nv = 0
+		case "one":
+			nv = 1
 		case "max":
 			nv = ^uint64(0)
+		case "other-block":
+			var cands []uint64
+			for _, d := range uintDonors[field] {
+				if d != old {
+					cands = append(cands, d)
+				}
+			}
+			if len(cands) == 0 {
+				return false
+			}
+			nv = cands[c.R.Intn(len(cands))]
 		}
 		v.SetUint(nv)
 		return nv != old
